@@ -4,6 +4,7 @@ C14, part TextCost – lemmas about the cost view of the two gcov readers (`Gcov
 import GrcovModel.Gcov.Cost
 import GrcovModel.Lemmas.TextCostBase
 import GrcovModel.Lemmas.Gcov
+import GrcovModel.Lemmas.TextCostLcov
 namespace Grcov.Gcov
 open Grcov AList Grcov.TextCost Grcov.Size
 
@@ -247,12 +248,12 @@ theorem runLines_halt (o : Out) (ls : List Bytes) : runLines (.halt o) ls = .hal
   | cons l ls ih => simpa [runLines, stepLine] using ih
 
 theorem runLines_cons (a : Acc) (l : Bytes) (ls : List Bytes) :
-    runLines (.run a) (l :: ls) = runLines (applyEv a (classify (stripEol l))) ls := by
+    runLines (.run a) (l :: ls) = runLines (applyEv a (classify (Lcov.utf8Lossy (stripEol l)))) ls := by
   simp [runLines, stepLine, procLine, procStripped_eq]
 
 theorem costLines_cons (a : Acc) (l : Bytes) (ls : List Bytes) :
     costLines (.run a) (l :: ls)
-      = (lineCost l).add (costLines (applyEv a (classify (stripEol l))) ls) := by
+      = (lineCost l).add (costLines (applyEv a (classify (Lcov.utf8Lossy (stripEol l)))) ls) := by
   simp [costLines, procLine, procStripped_eq]
 
 theorem costLines_halt (o : Out) (ls : List Bytes) : costLines (.halt o) ls = {} := by
@@ -269,26 +270,28 @@ theorem runLines_halt_err (a : Acc) (ls : List Bytes) (o : Out) (h : runLines (.
   | nil => simp [runLines] at h
   | cons l ls ih =>
     rw [runLines_cons] at h
-    cases hs : applyEv a (classify (stripEol l)) with
+    cases hs : applyEv a (classify (Lcov.utf8Lossy (stripEol l))) with
     | halt o' =>
       rw [hs, runLines_halt] at h
       cases h; exact applyEv_halt hs
     | run a1 => rw [hs] at h; exact ih a1 h
 
 theorem lineCost_bounds (raw : Bytes) :
-    (lineCost raw).mapOps ≤ 1 ∧ (lineCost raw).pushed ≤ 1 ∧ (lineCost raw).copied ≤ raw.length ∧
+    (lineCost raw).mapOps ≤ 1 ∧ (lineCost raw).pushed ≤ 1 ∧ (lineCost raw).copied ≤ 3 * raw.length ∧
     (lineCost raw).lines = 1 ∧ (lineCost raw).reads = raw.length := by
-  have h1 := classify_nameLen (stripEol raw)
+  have h1 := classify_nameLen (Lcov.utf8Lossy (stripEol raw))
   have h2 := stripEol_length_le raw
-  have h3 := evCost_copied (classify (stripEol raw))
+  have h4 := Lcov.utf8Lossy_length (stripEol raw)
+  have h3 := evCost_copied (classify (Lcov.utf8Lossy (stripEol raw)))
   unfold lineCost
-  cases hc : classify (stripEol raw) <;> simp [evCost, Cost.add, hc, Ev.nameLen] at h1 h3 ⊢ <;> omega
+  cases hc : classify (Lcov.utf8Lossy (stripEol raw)) <;>
+    simp [evCost, Cost.add, hc, Ev.nameLen] at h1 h3 ⊢ <;> omega
 
 /-- per run: at most one map operation and one push per line, names are copied out of the bytes
 read, and no line is read twice -/
 theorem costLines_bounds (s : St) (ls : List Bytes) :
     (costLines s ls).mapOps ≤ (costLines s ls).lines ∧ (costLines s ls).pushed ≤ (costLines s ls).lines ∧
-    (costLines s ls).copied ≤ (costLines s ls).reads ∧ (costLines s ls).lines ≤ ls.length ∧
+    (costLines s ls).copied ≤ 3 * (costLines s ls).reads ∧ (costLines s ls).lines ≤ ls.length ∧
     (costLines s ls).reads ≤ sumLens ls := by
   induction ls generalizing s with
   | nil => cases s <;> simp [costLines, sumLens]
@@ -298,7 +301,7 @@ theorem costLines_bounds (s : St) (ls : List Bytes) :
     | run a =>
       rw [costLines_cons]
       have h1 := lineCost_bounds l
-      have h2 := ih (applyEv a (classify (stripEol l)))
+      have h2 := ih (applyEv a (classify (Lcov.utf8Lossy (stripEol l))))
       simp only [Cost.add, sumLens, List.map_cons, List.sum_cons, List.length_cons] at h2 ⊢
       omega
 
@@ -310,7 +313,7 @@ theorem costLines_full (a a' : Acc) (ls : List Bytes) (h : runLines (.run a) ls 
   | cons l ls ih =>
     rw [runLines_cons] at h
     rw [costLines_cons]
-    cases hs : applyEv a (classify (stripEol l)) with
+    cases hs : applyEv a (classify (Lcov.utf8Lossy (stripEol l))) with
     | halt o => rw [hs, runLines_halt] at h; cases h
     | run a1 =>
       rw [hs] at h
@@ -328,7 +331,7 @@ theorem runLines_run (a a' : Acc) (ls : List Bytes) (h : runLines (.run a) ls = 
   | cons l ls ih =>
     rw [runLines_cons] at h
     rw [costLines_cons]
-    cases hs : applyEv a (classify (stripEol l)) with
+    cases hs : applyEv a (classify (Lcov.utf8Lossy (stripEol l))) with
     | halt o => rw [hs, runLines_halt] at h; cases h
     | run a1 =>
       rw [hs] at h
@@ -336,7 +339,7 @@ theorem runLines_run (a a' : Acc) (ls : List Bytes) (h : runLines (.run a) ls = 
       have h2 := applyEv_slots a a1 _ hs
       have h3 := applyEv_names a a1 _ hs
       have h4 := ih a1 h
-      have h5 := evCost_copied (classify (stripEol l))
+      have h5 := evCost_copied (classify (Lcov.utf8Lossy (stripEol l)))
       simp only [Cost.add, lineCost, List.length_cons] at h4 ⊢
       omega
 
@@ -670,20 +673,24 @@ theorem sum_const_one {β : Type} (ls : List β) : (ls.map fun _ => 1).sum = ls.
 
 theorem fileLines_length (ls : List LineJ) : (fileLines ls).length ≤ ls.length := by
   have := foldl_le (fun m : List (Nat × Nat) => m.length) (fun _ : LineJ => 1)
-    (fun m ln => set m ln.lineNumber ln.count) (fun s x => length_set_le _ _ _) ls []
+    (fun m ln => addCount m ln.lineNumber ln.count) (fun s x => length_set_le _ _ _) ls []
   rw [sum_const_one] at this
   simpa [fileLines] using this
 
+theorem addFunction_length (m : List (Name × Fn)) (f : FnJ) : (addFunction m f).length ≤ m.length + 1 := by
+  unfold addFunction
+  split <;> exact length_set_le _ _ _
+
 theorem fileFunctions_length (fs : List FnJ) : (fileFunctions fs).length ≤ fs.length := by
   have := foldl_le (fun m : List (Name × Fn) => m.length) (fun _ : FnJ => 1)
-    (fun m f => set m f.demangled ⟨f.startLine, decide (f.exec > 0)⟩) (fun s x => length_set_le _ _ _) fs []
+    addFunction (fun s x => addFunction_length s x) fs []
   rw [sum_const_one] at this
   simpa [fileFunctions] using this
 
 theorem fileBranches_length (ls : List LineJ) : (fileBranches ls).length ≤ ls.length := by
   have := foldl_le (fun m : List (Nat × List Bool) => m.length) (fun _ : LineJ => 1)
     (fun m ln => if ln.branches.isEmpty then m
-      else set m ln.lineNumber (ln.branches.map fun c => decide (c > 0)))
+      else orBranches m ln.lineNumber (ln.branches.map fun c => decide (c > 0)))
     (fun s x => by
       show List.length (if _ then _ else _) ≤ _
       split
@@ -692,28 +699,50 @@ theorem fileBranches_length (ls : List LineJ) : (fileBranches ls).length ≤ ls.
   rw [sum_const_one] at this
   simpa [fileBranches] using this
 
+/-- OR-ing a vector into a line's vector adds at most its own length -/
+theorem orBranches_slots (m : List (Nat × List Bool)) (l : Nat) (taken : List Bool) :
+    sumLen (orBranches m l taken) ≤ sumLen m + taken.length := by
+  unfold orBranches
+  have := wsum_set (fun kv : Nat × List Bool => kv.2.length) m l (zipOr ((get? m l).getD []) taken)
+  cases hg : get? m l with
+  | none =>
+    simp only [hg, Option.getD_none, zipOr_nil_left] at this ⊢
+    show wsum _ _ ≤ wsum _ _ + _
+    omega
+  | some u =>
+    simp only [hg, Option.getD_some, zipOr_length] at this ⊢
+    show wsum _ _ ≤ wsum _ _ + _
+    omega
+
 theorem fileBranches_slots (ls : List LineJ) :
     sumLen (fileBranches ls) ≤ (ls.map fun l => l.branches.length).sum := by
   have := foldl_le (fun m : List (Nat × List Bool) => sumLen m) (fun l : LineJ => l.branches.length)
     (fun m ln => if ln.branches.isEmpty then m
-      else set m ln.lineNumber (ln.branches.map fun c => decide (c > 0)))
+      else orBranches m ln.lineNumber (ln.branches.map fun c => decide (c > 0)))
     (fun s x => by
       show sumLen (if _ then _ else _) ≤ _
       split
       · omega
-      · have := wsum_set_le (fun kv : Nat × List Bool => kv.2.length) s x.lineNumber
-          (x.branches.map fun c => decide (c > 0))
-        simpa [sumLen, wsum] using this) ls []
-  simpa [fileBranches, sumLen] using this
+      · have := orBranches_slots s x.lineNumber (x.branches.map fun c => decide (c > 0))
+        simpa using this) ls []
+  have e : sumLen ([] : List (Nat × List Bool)) = 0 := rfl
+  simp only [e, Nat.zero_add] at this
+  simpa [fileBranches] using this
 
 def keyLen {α : Type} (m : List (Bytes × α)) : Nat := wsum (fun kv => kv.1.length) m
+
+theorem addFunction_names (m : List (Name × Fn)) (f : FnJ) :
+    keyLen (addFunction m f) ≤ keyLen m + f.demangled.length := by
+  unfold addFunction
+  split <;> exact wsum_set_le (fun kv : Name × Fn => kv.1.length) m f.demangled _
 
 theorem fileFunctions_names (fs : List FnJ) :
     keyLen (fileFunctions fs) ≤ (fs.map fun f => f.demangled.length).sum := by
   have := foldl_le (fun m : List (Name × Fn) => keyLen m) (fun f : FnJ => f.demangled.length)
-    (fun m f => set m f.demangled ⟨f.startLine, decide (f.exec > 0)⟩)
-    (fun s x => wsum_set_le (fun kv : Name × Fn => kv.1.length) s x.demangled _) fs []
-  simpa [fileFunctions, keyLen] using this
+    addFunction (fun s x => addFunction_names s x) fs []
+  have e : keyLen ([] : List (Name × Fn)) = 0 := rfl
+  simp only [e, Nat.zero_add] at this
+  simpa [fileFunctions] using this
 
 /-- all four measures of one result entry -/
 def entryW (r : Bytes × Cov) : Nat :=
@@ -826,26 +855,31 @@ theorem convFile_fits (f : FileJ) (r : Bytes × Cov) (hf : FileOK f) (h : convFi
   · simp only [Option.some.injEq] at h; subst h
     refine ⟨?_, ?_, ?_⟩
     · exact foldl_inv (fun m : List (Nat × Nat) => ∀ kv ∈ m, kv.1 ≤ U32MAX ∧ kv.2 ≤ U64MAX) LineOK
-        (fun m ln => set m ln.lineNumber ln.count)
+        (fun m ln => addCount m ln.lineNumber ln.count)
         (fun s x hx hs kv hkv => by
           rcases TextCost.mem_set hkv with h1 | h1
           · exact hs kv h1
-          · subst h1; exact hx) f.lines hf.1 [] (by simp)
+          · subst h1; exact ⟨hx.1, satAdd_le _ _⟩) f.lines hf.1 [] (by simp)
     · exact foldl_inv (fun m : List (Nat × List Bool) => ∀ kv ∈ m, kv.1 ≤ U32MAX) LineOK
         (fun m ln => if ln.branches.isEmpty then m
-          else set m ln.lineNumber (ln.branches.map fun c => decide (c > 0)))
+          else orBranches m ln.lineNumber (ln.branches.map fun c => decide (c > 0)))
         (fun s x hx hs kv hkv => by
           split at hkv
           · exact hs kv hkv
           · rcases TextCost.mem_set hkv with h1 | h1
             · exact hs kv h1
             · subst h1; exact hx.1) f.lines hf.1 [] (by simp)
-    · exact foldl_inv (fun m : List (Name × Fn) => ∀ kv ∈ m, kv.2.start ≤ U32MAX) FnOK
-        (fun m g => set m g.demangled ⟨g.startLine, decide (g.exec > 0)⟩)
+    · exact foldl_inv (fun m : List (Name × Fn) => ∀ kv ∈ m, kv.2.start ≤ U32MAX) FnOK addFunction
         (fun s x hx hs kv hkv => by
-          rcases TextCost.mem_set hkv with h1 | h1
-          · exact hs kv h1
-          · subst h1; exact hx) f.functions hf.2 [] (by simp)
+          unfold addFunction at hkv
+          split at hkv
+          · next g hg =>
+            rcases TextCost.mem_set hkv with h1 | h1
+            · exact hs kv h1
+            · subst h1; exact hs (x.demangled, g) (get?_mem hg)
+          · rcases TextCost.mem_set hkv with h1 | h1
+            · exact hs kv h1
+            · subst h1; exact hx) f.functions hf.2 [] (by simp)
 
 theorem toResults_fits (j : Gcov.Json) (rs : List (Bytes × Cov)) (h : toResults j = .ok rs) :
     ∀ r ∈ rs, CovFits r.2 := by
